@@ -266,6 +266,106 @@ def state_reads(mod, fn, depth=3):
     return out
 
 
+def copy_kind(v, param):
+    """how expression v relates to the parameter `param`: True = a copy (x.copy(), np.array(x), np.copy(x), x.astype(t), list(x),
+    deepcopy(x)), False = may be the very same object (x, np.asarray / ascontiguousarray / asanyarray / require(x), x.view(), x.reshape(..),
+    np.array(x, copy=False), x.astype(t, copy=False)), None = something else"""
+    d = dotted(v.func) if isinstance(v, ast.Call) else None
+    kw = {k.arg: k.value for k in v.keywords} if isinstance(v, ast.Call) else {}
+    nocopy = "copy" in kw and isinstance(kw["copy"], ast.Constant) and kw["copy"].value is False
+    if isinstance(v, ast.Name) and v.id == param:
+        return False
+    if isinstance(v, ast.Call) and isinstance(v.func, ast.Attribute) and src(v.func.value) == param:
+        if v.func.attr in ("copy", "tolist"):
+            return True
+        if v.func.attr == "astype":
+            return not nocopy
+        if v.func.attr in ("view", "reshape", "ravel", "squeeze", "transpose"):
+            return False
+    if d is not None and v.args and src(v.args[0]) == param:
+        last = d.split(".")[-1]
+        if last in ("array",):
+            return not nocopy
+        if last in ("copy", "deepcopy", "list", "tuple"):
+            return True
+        if last in ("asarray", "ascontiguousarray", "asanyarray", "require", "asfortranarray", "atleast_1d", "atleast_2d"):
+            return False
+    return None
+
+
+def shape_sniffs(fn):
+    """[(if statement, array name)] : 'if <test on X.shape[k] against the literal 3>: X = X.T / np.transpose(X)' - the layout of a
+    batch of 3-vectors guessed from its shape; a batch of exactly three vectors is a (3, 3) array in either layout"""
+    out = []
+    for st in ast.walk(fn):
+        if not isinstance(st, ast.If):
+            continue
+        arrs = set()
+        for c in ast.walk(st.test):
+            if isinstance(c, ast.Compare) and len(c.ops) == 1:
+                for side, other in ((c.left, c.comparators[0]), (c.comparators[0], c.left)):
+                    if isinstance(side, ast.Subscript) and isinstance(side.value, ast.Attribute) and side.value.attr == "shape" \
+                            and isinstance(side.value.value, ast.Name) and const_int(other) == 3:
+                        arrs.add(side.value.value.id)
+        for a in arrs:
+            for b in st.body + st.orelse:
+                for x in ast.walk(b):
+                    if isinstance(x, ast.Assign) and any(isinstance(t, ast.Name) and t.id == a for t in x.targets):
+                        v = x.value
+                        tr = (isinstance(v, ast.Attribute) and v.attr == "T" and src(v.value) == a) or \
+                            (isinstance(v, ast.Call) and (dotted(v.func) or "").split(".")[-1] in ("transpose", "swapaxes") and
+                             (v.args and src(v.args[0]) == a or isinstance(v.func, ast.Attribute) and src(v.func.value) == a))
+                        if tr:
+                            out.append((st, a))
+    return out
+
+
+def memo_results_mutated(mod):
+    """[(memoised function name, call statement, mutating statement, enclosing function)] : results of functions decorated with
+    functools.lru_cache / cache (or a hand-made module-level dict memo is NOT covered here) that a caller binds to a name and then
+    changes in place (x *= .., x[...] = .., x.sort() ...).  The cache hands out the same object every time, so the change is
+    permanent and accumulates from call to call."""
+    memo = {}
+    for q, fn in mod.funcs.items():
+        for d in fn.decorator_list:
+            t = src(d.func) if isinstance(d, ast.Call) else src(d)
+            if t.split(".")[-1] in ("lru_cache", "cache", "cached", "memoize", "memoise"):
+                memo[q.split(".")[-1]] = fn
+    out = []
+    if not memo:
+        return out
+    for q, fn in mod.funcs.items():
+        for a in ast.walk(fn):
+            if isinstance(a, ast.Assign) and len(a.targets) == 1 and isinstance(a.targets[0], ast.Name) and isinstance(a.value, ast.Call) \
+                    and (dotted(a.value.func) or "").split(".")[-1] in memo:
+                name = a.targets[0].id
+                for st in ast.walk(fn):
+                    if getattr(st, "lineno", 0) <= a.lineno:
+                        continue
+                    hit = False
+                    if isinstance(st, ast.AugAssign):
+                        b = st.target
+                        while isinstance(b, ast.Subscript):
+                            b = b.value
+                        hit = isinstance(b, ast.Name) and b.id == name
+                    elif isinstance(st, ast.Assign):
+                        for t in st.targets:
+                            if isinstance(t, ast.Subscript):
+                                b = t
+                                while isinstance(b, ast.Subscript):
+                                    b = b.value
+                                hit = hit or (isinstance(b, ast.Name) and b.id == name)
+                            elif isinstance(t, ast.Name) and t.id == name:
+                                break      # re-bound: later statements concern another object
+                    elif isinstance(st, ast.Expr) and isinstance(st.value, ast.Call) and isinstance(st.value.func, ast.Attribute) \
+                            and st.value.func.attr in MUTATORS and isinstance(st.value.func.value, ast.Name) and st.value.func.value.id == name:
+                        hit = True
+                    if hit:
+                        out.append(((dotted(a.value.func) or "").split(".")[-1], a, st, q))
+                        break
+    return out
+
+
 def from_module_state(mod, fn, node, depth=4):
     """does the value of expression `node` (used in function fn) come out of module-level state that the module mutates?  Follows names
     back through every assignment to them in fn (tuple unpacking included).  Returns (state name, assignment statement) or None."""
